@@ -42,7 +42,7 @@ from .sym import (
 from .world import ClassInfo, FuncInfo, ModuleInfo, SourceError
 
 QUERY_TIMEOUT_MS = int(os.environ.get("PYVC_QUERY_TIMEOUT_MS", "60000"))
-FEAS_TIMEOUT_MS = int(os.environ.get("PYVC_FEAS_TIMEOUT_MS", "2000"))
+FEAS_TIMEOUT_MS = int(os.environ.get("PYVC_FEAS_TIMEOUT_MS", "800"))
 
 
 class Oblig:
@@ -228,6 +228,7 @@ class Ctx:
         self.fresh_n = {}
         self.sqrt_cache = {}
         self.trig_cache = {}
+        self.keepalive = []
         self.inputs = {}  # name -> recipe
         self.named = {}
         self.deferred = []
@@ -689,8 +690,15 @@ class Ctx:
         self.callstack.pop()
 
     # ------------------------------------------------------------------ maths with assumptions
+    def tid(self, term):
+        """Stable key of a z3 term: the term is kept alive, so hash-consing keeps returning the same
+        AST (ids of collected terms are reused, which once made two structurally equal arguments
+        get different abstraction constants)."""
+        self.keepalive.append(term)
+        return term.get_id()
+
     def sqrt_of(self, term):
-        key = term.get_id()
+        key = self.tid(term)
         if key in self.sqrt_cache:
             return self.sqrt_cache[key]
         r = self.fresh("sqrt", "Real")
@@ -704,7 +712,7 @@ class Ctx:
         """Python divmod on ints with a symbolic divisor b (b != 0 already known):
         fresh q, r with a == q*b + r and r in [0,b) or (b,0]."""
         za, zb = sym.zterm(a), sym.zterm(b)
-        key = ("divmod", za.get_id(), zb.get_id())
+        key = ("divmod", self.tid(za), self.tid(zb))
         if key in self.sqrt_cache:
             return self.sqrt_cache[key]
         pos = self.branch(simp(zb > 0), None)
@@ -740,7 +748,7 @@ class Ctx:
                 return Fraction(1) if which == "cos" else Fraction(0)
             raise Unsupported("trig of non-zero concrete radian constant")
         zx = sym.zreal(x)
-        key = ("trig", zx.get_id())
+        key = ("trig", self.tid(zx))
         if key not in self.trig_cache:
             # fresh constants per distinct argument term (not UF applications: with pure real
             # constants the obligations stay inside nonlinear real arithmetic, where nlsat decides them)
@@ -798,7 +806,7 @@ class Ctx:
         bad = simp(z3.Or(zx < -1, zx > 1))
         if self.branch(bad, None):
             raise PyRaise("ValueError", "math domain error")
-        key = ("acos", zx.get_id())
+        key = ("acos", self.tid(zx))
         if key not in self.trig_cache:
             a = self.fresh("acos", "Real")
             self.trig_cache[key] = a
@@ -807,13 +815,13 @@ class Ctx:
             self.assume(z3.Implies(zx == 1, a == 0))
             self.assume(z3.Implies(zx == -1, a == self.pi()))
             self.assume(z3.Implies(zx == 0, a * 2 == self.pi()))
-            self.trig_cache[("trig", a.get_id())] = (zx, self.sqrt_of(1 - zx * zx))
+            self.trig_cache[("trig", self.tid(a))] = (zx, self.sqrt_of(1 - zx * zx))
         return self.trig_cache[key]
 
     def uninterp(self, name, x):
         self.result.assumptions.add(f"A-REAL: {name} is an uninterpreted real function (fresh constant per argument term)")
         zx = sym.zreal(x)
-        key = (name, zx.get_id())
+        key = (name, self.tid(zx))
         if key not in self.trig_cache:
             self.trig_cache[key] = self.fresh(name, "Real")
         return self.trig_cache[key]
